@@ -222,13 +222,11 @@ func PanicSite(stack string) string {
 	for _, l := range strings.Split(stack, "\n") {
 		l = strings.TrimSpace(l)
 		if strings.HasPrefix(l, "mltwist/") && !strings.HasPrefix(l, "mltwist/verifh") {
-			if i := strings.Index(l, "("); i > 0 {
+			// strip the argument list (the last parenthesised group) and generic noise
+			if i := strings.LastIndex(l, "("); i > 0 {
 				l = l[:i]
 			}
-			// strip generic instantiation noise
-			if i := strings.Index(l, "["); i > 0 {
-				l = l[:i]
-			}
+			l = strings.ReplaceAll(l, "[...]", "")
 			return l
 		}
 	}
